@@ -171,12 +171,25 @@ def normalize_noop_clamps(events, env, m1):
     out = []
     for e in events:
         acc = (e.kind == "call" and e.info.get("model") in ("index", "slice_get", "ptr_add", "Iterator::map")) or is_view(e)
-        if not acc or not any(x[0] == "call" and x[1] in ("min", "max") for a in e.args if isinstance(a, tuple) for x in subterms(a)):
+        if not acc or not any(x[0] == "call" and x[1] in ("min", "max", "saturating_add") for a in e.args if isinstance(a, tuple)
+                              for x in subterms(a)):
             out.append(e)
             continue
         p = cprover(m1, env, e)
 
         def f(x):
+            # b (+) (E - b) is E when b <= E (a chunk handed on as (begin, end - begin) and rebuilt as begin + len)
+            parts = None
+            if x[0] == "call" and x[1] == "saturating_add" and len(x[2]) == 2:
+                parts = (x[2][0], x[2][1])
+            elif x[0] == "bin" and x[1] == "Add":
+                parts = (x[2], x[3])
+            if parts:
+                for b_, d_ in (parts, parts[::-1]):
+                    d_ = unref(d_)
+                    if d_[0] == "bin" and d_[1] == "Sub" and m1.canon(unref(d_[3])) == m1.canon(unref(b_)) \
+                            and p.le(m1.canon(unref(b_)), m1.canon(unref(d_[2]))):
+                        return d_[2]
             if x[0] == "call" and x[1] in ("min", "max") and len(x[2]) == 2:
                 a, b = m1.canon(unref(x[2][0])), m1.canon(unref(x[2][1]))
                 if a[0] == "int" or b[0] == "int":
